@@ -415,7 +415,7 @@ impl FromStr for Datetime {
                 nanosecond,
             };
 
-            if time.hour > 24 {
+            if time.hour > 23 {
                 return Err(DatetimeParseError {});
             }
             if time.minute > 59 {
@@ -462,11 +462,12 @@ impl FromStr for Datetime {
                 let hours = h1 * 10 + h2;
                 let minutes = m1 * 10 + m2;
 
-                let total_minutes = sign * (hours * 60 + minutes);
-
-                if !((-24 * 60)..=(24 * 60)).contains(&total_minutes) {
+                // same ranges as the TOML grammar: `time-hour` 00-23, `time-minute` 00-59
+                if hours > 23 || minutes > 59 {
                     return Err(DatetimeParseError {});
                 }
+
+                let total_minutes = sign * (hours * 60 + minutes);
 
                 Some(Offset::Custom {
                     minutes: total_minutes,
